@@ -498,6 +498,14 @@ def check(ctx):
     _c10.check_reapply_and_reset(ctx)
     _c10.check_dir_forced(ctx)
     _c10.check_pair(ctx)
+    # no state that gates a store-writing step is switched off by a load:
+    # later loads would skip that step for good
+    from . import c20 as _c20
+    _c20.check_gates(ctx, ctx.prog, ctx.prog.func(ENF + '.load_rules'))
+    ctx.findings[nf:] = [f for f in ctx.findings[nf:]
+                         if not f.rule.startswith('C20.LOAD-STEP')]
+    ctx.obligations[no:] = [o for o in ctx.obligations[no:]
+                            if not o['rule'].startswith('C20.LOAD-STEP')]
     for fd in ctx.findings[nf:]:
         fd.rule = 'C12.RELOAD(' + fd.rule + ')'
     for o in ctx.obligations[no:]:
